@@ -486,3 +486,16 @@ package protocol
 //@   modifies d.Options
 //@   requires d != nil && tag != 0 && tag != 255 && len(data) <= 253 && d.HardwareLen <= 16 && len(d.ClientHWAddr) == int(d.HardwareLen) && len(d.ClientIP) == 4 && len(d.YourIP) == 4 && len(d.ServerIP) == 4 && len(d.GatewayIP) == 4
 //@   ensures n1 == 244 + len(data) && n1 == size && u8(b1, 240) == 0 && u8(b1, 241) == tag && u8(b1, 243 + len(data)) == 255
+
+//@ func lemmaEthIPv6HRF(e, ip, hel, o, r, f, u) (d, err, b1, b2) [C09]
+//@   thoroughonly
+//@   inlinecalls
+//@   modreach
+//@   unroll 5
+//@   modifies e.Data, ip.Data, ip.HbhHeader, ip.RoutingHeader, ip.FragmentHeader
+//@   requires e != nil && ip != nil && wf(u) && wf(o) && wf(r) && wf(f) && ethwf(e) && e.Ethertype == 34525 && ip6base(ip) && ip.NextHeader == 0 && 2 + size(o) == 8*(int(hel) + 1) && r.NextHeader == 44 && f.NextHeader == 17 && 14 + 4 + 40 + 2048 + 2048 + 8 + 8 + len(u.Data) <= 65535
+//@   ensures err == nil && d != nil && typeis(d.Data, *IPv6) && typeis(d.Data.(*IPv6).Data, *UDP)
+//@   ensures err == nil ==> etheq(d, e) && ip6eq(d.Data.(*IPv6), ip) && rheq(d.Data.(*IPv6).RoutingHeader, r) && fheq(d.Data.(*IPv6).FragmentHeader, f)
+//@   ensures err == nil ==> d.Data.(*IPv6).HbhHeader != nil && d.Data.(*IPv6).HbhHeader.NextHeader == 43 && d.Data.(*IPv6).HbhHeader.HEL == hel && len(d.Data.(*IPv6).HbhHeader.Options) == 1
+//@   ensures err == nil ==> udpeq(d.Data.(*IPv6).Data.(*UDP), u)
+//@   ensures err == nil ==> len(b2) == len(b1) && bytes_eq(b2, 0, b1, 0, len(b1))
